@@ -24,7 +24,7 @@ var expectedReach = map[string][]string{
 	"C16": {"outcome.garbler-error", "outcome.session-stalled-then-aborted:garbler-error", "outcome.garbler-correct-despite-corruption", "mode.whole-circuit", "mode.streaming"},
 	"C02": {"pipe.short-reads", "pipe.writer-blocked", "pipe.one-byte-reads", "ot.CO", "ot.COT", "ot.COT-malicious", "ot.RSA-1024", "circuit.multi-output", "circuit.compiled-from-mpcl"},
 	"C19": {"net.data-before-accept", "net.backlog>1", "mutex.contended", "cond.wakeup"},
-	"C11": {"pipe.short-reads", "pipe.writer-blocked", "pipe.reader-blocked", "pipe.one-byte-reads", "knobs.small-buffers", "fault.write-error-reported-by-close", "fault.write-error-reported-by-send-or-flush"},
+	"C11": {"pipe.short-reads", "pipe.writer-blocked", "pipe.reader-blocked", "pipe.one-byte-reads", "knobs.small-buffers", "pipe.empty-reads", "fault.write-error-reported-by-close", "fault.write-error-reported-by-send-or-flush"},
 }
 
 var props = map[string]propCfg{
